@@ -1879,7 +1879,19 @@ feature! {
             // XXX(eliza): it's a bummer we have to do this linear search every
             // time. It would be nice if this could be cached, but that would
             // require replacing the `Vec` impl with an impl for a newtype...
-            if filter::is_psf_downcast_marker(id) && self.iter().any(|s| s.downcast_raw(id).is_none()) {
+            //
+            // Members that are `Option::None` subscribers are neither filtered
+            // nor unfiltered: they are skipped when deciding this. Conversely,
+            // the `Vec` as a whole only counts as "no subscriber at all" if
+            // every one of its members does (an empty `Vec` never does).
+            let none_marker = TypeId::of::<NoneLayerMarker>();
+            let is_none = |s: &S| s.downcast_raw(none_marker).is_some();
+            if id == none_marker && self.iter().any(|s| !is_none(s)) {
+                return None;
+            }
+            if filter::is_psf_downcast_marker(id)
+                && self.iter().any(|s| !is_none(s) && s.downcast_raw(id).is_none())
+            {
                 return None;
             }
 
